@@ -78,6 +78,61 @@ class Ctx:
         return cond
 
 
+def run_thorough(prop, module, ctx, repo):
+    """thorough tier = quick rules + (a) the same rules over a second extraction with the shipped profile's codegen flags
+    (--release: overflow checks and debug assertions off) + (b) checker self-test: every registered single-edit mutant
+    and every stored seeded change of this property is applied to a scratch copy of the CURRENT tree and must be
+    reported; a miss is printed as SELFTEST-MISS (it says the checker is weak, not that acmed is wrong)."""
+    out = {}
+    # (a) release profile
+    if os.environ.get("VERIF_NESTED") != "1":
+        t0 = time.time()
+        facts_dir, info = extract.ensure_facts("release", repo)
+        prog2 = Program(extract.load_facts(facts_dir))
+        ctx2 = Ctx(prop, prog2, "thorough", repo)
+        ctx2.extract_info = info
+        try:
+            module.check(ctx2)
+        except AnchorMissing as e:
+            ctx2.rule("ANCHOR", "anchors resolve in the release-profile program")
+            ctx2.fail("ANCHOR", "-", "ANCHOR-MISSING (release profile): %s" % e, ["anchor-release", str(e)[:80]])
+        base = {f.key for f in ctx.findings}
+        extra = [f for f in ctx2.findings if f.key not in base]
+        for f in extra:
+            f.what = "[release profile] " + f.what
+            f.key = f.key + "/release"
+            ctx.findings.append(f)
+        out["release_profile"] = {"overflow_checks": prog2.crates["acmed"].get("overflow_checks"), "bodies": len(prog2.bodies),
+                                  "obligations": sum(r["obligations"] for r in ctx2.rules.values()),
+                                  "discharged": sum(r["discharged"] for r in ctx2.rules.values()),
+                                  "findings_only_in_release": [f.key for f in extra], "wall_s": round(time.time() - t0, 1)}
+        # (b) self-test
+        from . import selftest
+        t0 = time.time()
+        os.environ["VERIF_NESTED"] = "1"
+        try:
+            res = selftest.run_mutants(prop)
+            seeds = []
+            sd = os.path.join(VERIF, "seeded")
+            for d in sorted(os.listdir(sd)) if os.path.isdir(sd) else []:
+                mp = os.path.join(sd, d, "meta.json")
+                if os.path.exists(mp) and json.load(open(mp)).get("property") == prop:
+                    r = selftest.run_patch(prop, os.path.join(sd, d, "patch.diff"))
+                    seeds.append({"seed": d, "status": r["status"], "rules": sorted({l.strip().split()[1] for l in r["output"] if l.strip().startswith("rule ")})})
+        finally:
+            os.environ.pop("VERIF_NESTED", None)
+        for r in res:
+            if r["status"] not in ("CAUGHT", "CAUGHT-OTHER-RULE"):
+                print("%s property=%s mutant=%s %s" % (r["status"], prop, r["mutant"], r.get("why", "")))
+        for r in seeds:
+            if r["status"] != "CAUGHT":
+                print("SELFTEST-MISS property=%s seed=%s (%s)" % (prop, r["seed"], r["status"]))
+        out["selftest"] = {"mutants": [{"mutant": r["mutant"], "status": r["status"], "rules": r.get("rules", []), "what": r.get("what", "")} for r in res],
+                           "seeded": seeds, "caught": sum(1 for r in res if r["status"].startswith("CAUGHT")) + sum(1 for r in seeds if r["status"] == "CAUGHT"),
+                           "total": len(res) + len(seeds), "wall_s": round(time.time() - t0, 1)}
+    return out
+
+
 def load_known():
     p = os.path.join(VERIF, "known_findings.json")
     if not os.path.exists(p):
@@ -104,10 +159,13 @@ def run_property(prop, module, tier="quick", level="other", extra_cover=None):
     ctx = Ctx(prop, prog, tier, repo)
     ctx.extract_info = info
     crashed = None
+    thorough = {}
     try:
         module.check(ctx)
         if tier == "thorough" and hasattr(module, "check_thorough"):
             module.check_thorough(ctx)
+        if tier == "thorough":
+            thorough = run_thorough(prop, module, ctx, repo)
     except AnchorMissing as e:
         ctx.rule("ANCHOR", "every anchor named by a rule must resolve in the analysed program (fail closed)")
         ctx.fail("ANCHOR", "-", "ANCHOR-MISSING: %s" % e, ["anchor", str(e)[:80]])
@@ -155,6 +213,8 @@ def run_property(prop, module, tier="quick", level="other", extra_cover=None):
     }
     if extra_cover:
         cover.update(extra_cover)
+    if thorough:
+        cover["thorough"] = thorough
     ev = {
         "property_id": prop,
         "tier": tier,
